@@ -18,5 +18,6 @@ CONSTANTS
   StaleLocals = FALSE
   Orphans = {}
   LockViaParent = FALSE
+  NumberUpFront = TRUE
 INVARIANTS NoRace TextEqual Mutex
 CHECK_DEADLOCK FALSE
